@@ -148,17 +148,26 @@ Proof.
 Qed.
 Lemma ok_or_raw_word r i : ok_or PIndex (raw_word r i).
 Proof. apply ok_or_idx. Qed.
-(* set_bit asserts the offset against len first (repair of finding F13); inside, the word access is bounds-checked *)
-Lemma ok_or_raw_set_bit r i v :
+(* set_bit: the assertion on the bit offset comes first (repair 7337be0); behind it the word index is
+   bounds-checked *)
+Lemma ok_or_raw_set_bit_body r i v : ok_or PIndex (raw_set_bit_body r i v).
+Proof.
+  unfold raw_set_bit_body. rewrite split_offset_spec. cbv iota beta.
+  apply ok_or_bind; [apply ok_or_idx|]. intros w _.
+  apply ok_or_bind; [apply ok_or_upd|]. intros d _. apply ok_or_ok.
+Qed.
+Lemma raw_set_bit_beyond r i v : rlen r <= i -> raw_set_bit r i v = Panic PAssert.
+Proof. intros H. unfold raw_set_bit. replace (i <? rlen r) with false by lia. reflexivity. Qed.
+Lemma raw_set_bit_class r i v :
   (rlen r <= i -> raw_set_bit r i v = Panic PAssert) /\
   (i < rlen r -> ok_or PIndex (raw_set_bit r i v)).
 Proof.
-  split; intros Hi; unfold raw_set_bit.
-  - replace (i <? rlen r) with false by (symmetry; apply N.ltb_ge; exact Hi). reflexivity.
-  - replace (i <? rlen r) with true by (symmetry; apply N.ltb_lt; exact Hi). cbn [negb].
-    rewrite split_offset_spec. cbv iota beta.
-    apply ok_or_bind; [apply ok_or_idx|]. intros w _.
-    apply ok_or_bind; [apply ok_or_upd|]. intros d _. apply ok_or_ok.
+  split; [apply raw_set_bit_beyond|]. intros H. unfold raw_set_bit. replace (i <? rlen r) with true by lia.
+  apply ok_or_raw_set_bit_body.
+Qed.
+Lemma safe_raw_set_bit r i v : safe (raw_set_bit r i v).
+Proof.
+  unfold raw_set_bit. destruct (i <? rlen r); [exact (ok_or_safe _ _ (ok_or_raw_set_bit_body r i v))|reflexivity].
 Qed.
 Lemma ok_or_raw_int r bo w : w <= 64 -> ok_or PIndex (raw_int r bo w).
 Proof. intros H. unfold raw_int. destruct (w =? 0); [apply ok_or_ok|apply ok_or_read_int, H]. Qed.
